@@ -444,6 +444,76 @@ func c01(p *an.Prog, r *an.R, tier string) {
 	})
 	r.Floor("C01.R1.loop-exits", 7, n)
 	c01Propagation(p, r)
+	c01SingleLine(p, r)
+}
+
+// c01SingleLine: the same-line shortcut (andLineMatchTree) is sound only if
+// "single line" is claimed for sub-expressions that really cannot cross a
+// newline.
+func c01SingleLine(p *an.Prog, r *an.R) {
+	r.Rule("C01.R4", "regexpToMatchTreeRecursive returns the constant true as its singleLine result only where the sub-expression was tested to be OpAnyCharNotNL (`.` without the s flag); everything else derives singleLine from the literal's content or from its sub-expressions")
+	f := p.Func("index", "(*indexData).regexpToMatchTreeRecursive")
+	d := p.Decl(f)
+	if !r.Anchor(d != nil, "index.(*indexData).regexpToMatchTreeRecursive") {
+		return
+	}
+	r.Fn(an.FuncName(f))
+	info := d.Pkg.TypesInfo
+	var notNL types.Object
+	for _, tp := range p.TPkgs {
+		if tp.Path() == "regexp/syntax" {
+			notNL = tp.Scope().Lookup("OpAnyCharNotNL")
+		}
+	}
+	if !r.Anchor(notNL != nil, "regexp/syntax.OpAnyCharNotNL") {
+		return
+	}
+	isNotNLFact := func(atom ast.Expr, truth bool) bool {
+		be, ok := ast.Unparen(atom).(*ast.BinaryExpr)
+		if !ok || !((be.Op == token.EQL && truth) || (be.Op == token.NEQ && !truth)) {
+			return false
+		}
+		for _, pr := range [][2]ast.Expr{{be.X, be.Y}, {be.Y, be.X}} {
+			se, ok := ast.Unparen(pr[0]).(*ast.SelectorExpr)
+			if !ok || se.Sel.Name != "Op" {
+				continue
+			}
+			if s2, ok := ast.Unparen(pr[1]).(*ast.SelectorExpr); ok && info.ObjectOf(s2.Sel) == notNL {
+				return true
+			}
+		}
+		return false
+	}
+	n := 0
+	var stack []ast.Node
+	ast.Inspect(d.Decl.Body, func(nd ast.Node) bool {
+		if nd == nil {
+			stack = stack[:len(stack)-1]
+			return true
+		}
+		stack = append(stack, nd)
+		rs, ok := nd.(*ast.ReturnStmt)
+		if !ok || len(rs.Results) != 4 {
+			return true
+		}
+		tv := info.Types[rs.Results[2]]
+		if tv.Value == nil || tv.Value.String() != "true" {
+			return true
+		}
+		n++
+		justified := false
+		for i := len(stack) - 2; i >= 0; i-- {
+			if is, ok := stack[i].(*ast.IfStmt); ok {
+				truth := stack[i+1] == ast.Node(is.Body)
+				if an.Implied(is.Cond, truth, isNotNLFact) {
+					justified = true
+				}
+			}
+		}
+		r.Check(justified, "C01.R4", fmt.Sprintf("index.(*indexData).regexpToMatchTreeRecursive/single-line-claim#%d", n), rs.Pos(), "claimed only for `.` that excludes newline", "a sub-expression is declared single-line without having been tested to be OpAnyCharNotNL: with a dot-all `.*` between two literals the same-line shortcut rejects documents where the literals are on different lines although the regexp matches")
+		return true
+	})
+	r.Floor("C01.R4.single-line-claims", 1, n)
 }
 
 // methodDecl finds the method name declared on *T (not promoted).
